@@ -126,3 +126,9 @@ def run(ctx, chk):
     sub2 = Sub(chk, "C06/parse", lambda r: r in ("C06p-a/no-panic", "C06p-b/no-wrap", "C06p-b/no-truncation"))
     rules_c02.run(ctx, sub2, only=lambda b: True, prop="C06p")
     chk.floor("decoder panic-site obligations (shared with C02-a/b)", sub2.count, 100)
+    # "a packet outside the command's reply set" is an error only if the enum the sequence parses *is* that reply set: a
+    # command that is given a wider (shared) enum accepts, acknowledges and yields the foreign packet (C15/reply-set)
+    import rules_c15
+    sub3 = Sub(chk, "C06/parse", lambda r: r == "C15/reply-set")
+    rules_c15.run(ctx, sub3)
+    chk.floor("reply-set obligations (shared with C15)", sub3.count, 17)
